@@ -1066,7 +1066,7 @@ refine_stmt :
 
 optional_refine_body_stmts :
     /* empty */
-    refine_body_stmts
+    | refine_body_stmts
 
 refine_body_stmts  :
     refine_body_stmt | refine_body_stmts refine_body_stmt
